@@ -81,7 +81,9 @@ def check_case(case, ctx):
         if sound is None:
             sound = difference_is_sound(dec, A, B, envs, fa, fb)
         env, x, y = wrong[0]
-        if not sound:
+        if not sound and has_q:
+            # (the listed root cause: simplify() is not value preserving for INTEGER DIVISION, see C08; an unsound
+            # difference without any integer quotient is something else and gets the plain signatures below)
             sig = 'C09:via-unsound-simplify'
         elif name in ('eq', 'ne') and r == (name == 'ne'):
             sig = f'C09:{name}:not-provably-equal-answered-{r}'
